@@ -8,6 +8,7 @@ import (
 	"io"
 	"log"
 	"os"
+	"runtime/debug"
 	"runtime/pprof"
 
 	"github.com/sirupsen/logrus"
@@ -27,6 +28,7 @@ func register(id, level string, f func(r *engine.Run)) {
 
 func main() {
 	log.SetOutput(io.Discard)
+	debug.SetGCPercent(400) // executions allocate little that survives; fewer collections, less scavenging
 	logging.Disable()
 	logging.SetLevel(logrus.PanicLevel) // no formatting work for discarded log lines (logger.Panic still panics)
 	if pf := os.Getenv("VERIF_PROF"); pf != "" {
